@@ -37,7 +37,8 @@ In(a, r) == IF r.k = "low" THEN a.hi = {} /\ r.b <= a.lo /\ a.lo <= r.e
 Readable(p) == p \in {"ro", "rw", "rx"}    Writable(p) == p = "rw"    Executable(p) == p = "rx"
 PossiblyAllowed(op, p) == CASE op = "read" -> Readable(p) [] op = "write" -> Writable(p) [] op = "exec" -> Executable(p) [] OTHER -> TRUE
 Examined == { Addr({}, 65552), Addr({40}, 65552), Addr({40}, 0), Addr({}, 69632), Addr({47}, 65552), Addr({48}, 65552), Addr({}, 4), Addr({}, 5),
-              Addr((LoBits..63) \ {33}, 1048575), Addr({}, 0), Addr({63}, 65552), Addr({47, 48}, 65552) }
+              Addr((LoBits..63) \ {33}, 1048575), Addr({}, 0), Addr({63}, 65552), Addr({47, 48}, 65552),
+              Addr({}, 69624), Addr({47}, 0), Addr({52}, 0) }     \* a register inside a region whose +16 is outside; single bits outside a flip range
 RegionSets == { {}, {LowR(65536, 69631, "ro")}, {LowR(65536, 69631, "noaccess")}, {LowR(65536, 69631, "rw")}, {LowR(65536, 69631, "rx")},
                 {LowR(65536, 69631, "ro"), TopR("rw")}, {LowR(0, 4095, "ro")}, {TopR("ro")}, {LowR(65536, 69631, "ro"), LowR(131072, 135167, "rw")} }
 VARIABLES scen, cpu, op, addr, regions
